@@ -121,7 +121,7 @@ def _worker(task):
         return {"ok": False, "crash": traceback.format_exc()[-1500:], "prog": prog, "flavours": flavours}
     out = {"ok": r["ok"], "n": len(r["steps"]), "flavours": flavours}
     classes = {}
-    for op, cm, ci, reason in r["steps"]:
+    for op, cm, ci, reason, obs in r["steps"]:
         if ci is not None:
             c = op["op"] + ":" + ci[0] + (":" + str(ci[1]) if ci[0] == "err" else "")
             classes[c] = classes.get(c, 0) + 1
@@ -131,8 +131,8 @@ def _worker(task):
         out["tree"] = r["tree"]
         bad = [(i, s) for i, s in enumerate(r["steps"]) if s[3] is not None]
         if bad:
-            i, (op, cm, ci, reason) = bad[0]
-            out["fail"] = {"step": i, "op": op, "model": cm, "impl": ci, "reason": reason}
+            i, (op, cm, ci, reason, obs) = bad[0]
+            out["fail"] = {"step": i, "op": op, "model": cm, "impl": ci, "reason": reason, "observed": obs}
         out["steps"] = [(s[1], s[2]) for s in r["steps"]]
     return out
 
@@ -149,6 +149,17 @@ def classify(pid, res):
         return True, f"call {fail['op']['op']} answered {ci[0]}: {ci[-1] if len(ci) > 1 else ''}"
     if not oracle.check_read_digest(fail["op"], ci):
         return True, "read_hash returned bytes whose digest is not the requested address"
+    obs = fail.get("observed") or {}
+    if obs.get("digest_ok") is False:
+        return True, "a checked read returned bytes whose digest is not the address recorded for the key"
+    if ci[0] == "ok" and obs.get("checked") and obs.get("dest_digest_ok") is False:
+        return True, "a checked extraction reported success but the destination does not carry the digest of the entry's address"
+    if ci[0] == "ok" and obs.get("count_ok") is False:
+        return True, "copy returned a byte count different from the length of the destination file"
+    if ci[0] == "ok" and fail["op"]["op"] in ("copy", "hard_link", "reflink") and not obs.get("dest_exists", True):
+        return True, "an extraction reported success but there is no file at the destination"
+    if ci[:2] == ("err", "Integrity") and obs.get("checked") and obs.get("dest_exists") and (not obs.get("dest_existed") or obs.get("dest_changed")):
+        return True, "a checked extraction failed verification but left / replaced a file at the destination"
     rc = oracle.RefCache()
     exp = None
     times = {}
@@ -329,7 +340,7 @@ def replay(path):
         print(json.dumps(r, indent=1)); return 0
     build_coq(); build_driver(); build_harness(r["flavours"])
     res = run_program(r["program"], flavours=r["flavours"], stop_on_first=False)
-    for i, (op, cm, ci, reason) in enumerate(res["steps"]):
+    for i, (op, cm, ci, reason, obs) in enumerate(res["steps"]):
         print(i, json.dumps(op)[:160]); print("    model:", str(cm)[:300]); print("    impl :", str(ci)[:300])
         if reason: print("    DISAGREE:", reason)
     print("tree:", res["tree"])
